@@ -206,17 +206,32 @@ class Simplifier(pysmt.walkers.DagWalker):
         if sl == sr:
             return self.manager.TRUE()
         elif sl.is_array_value() or sr.is_array_value():
-            # Array values have no python value: two different array
-            # values (default + non-default assignments) over an
-            # infinite index type with scalar elements are different
-            # arrays; the other cases are left to the solver.
+            # Array values have no python value: two array values
+            # with scalar elements are compared index by index (the
+            # defaults matter unless every index is assigned); the
+            # other cases are left to the solver.
             if sl.is_constant() and sr.is_constant():
                 ty = sl.get_type()
                 idx_ty = ty.index_type
-                if (idx_ty.is_int_type() or idx_ty.is_real_type() or \
-                    idx_ty.is_string_type()) and \
-                   not ty.elem_type.is_array_type():
-                    return self.manager.FALSE()
+                if idx_ty.is_bv_type():
+                    idx_size = 2 ** idx_ty.width
+                elif idx_ty.is_bool_type():
+                    idx_size = 2
+                elif idx_ty.is_int_type() or idx_ty.is_real_type() or \
+                     idx_ty.is_string_type():
+                    idx_size = None # Infinite
+                else:
+                    idx_size = 0 # Unknown
+                if idx_size != 0 and not ty.elem_type.is_array_type():
+                    # Extensional comparison of the two values
+                    idxs = set(sl.array_value_assigned_values_map())
+                    idxs.update(sr.array_value_assigned_values_map())
+                    if any(sl.array_value_get(i) != sr.array_value_get(i)
+                           for i in idxs):
+                        return self.manager.FALSE()
+                    return self.manager.Bool(
+                        sl.array_value_default() == sr.array_value_default()
+                        or len(idxs) == idx_size)
             return self.manager.Equals(sl, sr)
         elif sl.is_constant() and sr.is_constant():
             l = sl.constant_value()
